@@ -128,16 +128,34 @@ Definition grow_slice (es : Z) (h : heap) (s : slice) (num : Z) : heap * slice :
     (h2, mkS p newLen newCap)
   else (h, mkS (sdata s) newLen (scap s)).
 
-(* result: heap, slice, and whether the memcpy contract was broken *)
-Definition slice_append (es : Z) (h : heap) (s : slice) (src : source) (num : Z)
+Definition is_nil (p : ptr) : bool := Nat.eqb (pid p) 0.
+
+(* SliceAppend.  Result: heap, slice, and whether a memcpy was called on
+   partially overlapping ranges.
+   [fixed = true] is the code that exists: zero-size elements only grow len
+   (and cap when it does not suffice; a nil slice gets a zero-byte block so
+   that the result is not nil), other sizes copy with memmove (no contract).
+   [fixed = false] is the code before the two repairs: zero-size elements gave
+   the argument back unchanged, and the copy was a memcpy. *)
+Definition slice_append_gen (fixed : bool) (es : Z) (h : heap) (s : slice) (src : source) (num : Z)
   : heap * slice * bool :=
-  if es =? 0 then (h, s, false)
+  if es =? 0 then
+    if fixed then
+      let newLen := slen s + num in
+      if scap s <? newLen then
+        if is_nil (sdata s) then
+          let '(h1, p) := alloc h 0 in (h1, mkS p newLen newLen, false)
+        else (h, mkS (sdata s) newLen newLen, false)
+      else (h, mkS (sdata s) newLen (scap s), false)
+    else (h, s, false)
   else
     let oldLen := slen s in
     let '(h1, s1) := grow_slice es h s num in
     let dst := advance (sdata s1) (oldLen * es) in
     let n := num * es in
-    (memcpy h1 dst src n, s1, src_overlap dst src n).
+    (memmove h1 dst src n, s1, if fixed then false else src_overlap dst src n).
+
+Definition slice_append := slice_append_gen true.
 
 Definition slice_copy (es : Z) (h : heap) (dst : slice) (src : source) (num : Z) : heap * Z :=
   let n := if num <? slen dst then num else slen dst in
